@@ -731,7 +731,7 @@ func (vc *VC) instr(in ssa.Instruction, st *State, reach Term, b *ssa.BasicBlock
 		vc.store(st, lv, vc.asTerm(v))
 	case *ssa.Alloc:
 		t := x.Type().(*types.Pointer).Elem()
-		if !x.Heap && vc.allocIsLocal(x) {
+		if vc.allocIsLocal(x) && (!x.Heap || vc.capturedReadOnly(x)) {
 			// the address never escapes: a state variable of its own, untouched by calls
 			lv := &LVal{kind: lvLocal, typ: t, heap: vc.localName(x), nonnil: true}
 			vc.store(st, lv, vc.S.zero(t))
